@@ -314,10 +314,12 @@ func checkTarget(p *load.Program, r *kit.Report) {
 	r.Check(signed64, "TYPE-RULE", "Target/timespan-sub", posOf(p, span), "time span subtracted in "+span.Type().String(),
 		"time span is subtracted in "+span.Type().String()+": when the median time runs backwards the unsigned difference wraps and is clamped to the wrong end")
 
-	// clamps: follow phis from span to the divisor
-	var lower, upper int64 = -1, -1
+	// clamps: the value the projected work is divided by, as a function of the time span. Between
+	// the subtraction and the division the span is only compared with constants and replaced by
+	// constants, so the function is decided by evaluating that slice for every ordering of the span
+	// relative to the constants involved (one representative below, at and above each constant).
 	cur := ssa.Value(span)
-	for i := 0; i < 4; i++ {
+	for i := 0; i < 6; i++ { // the divisor: last member of the phi web that starts at span
 		var next *ssa.Phi
 		for _, ref := range *cur.Referrers() {
 			if ph, ok := ref.(*ssa.Phi); ok {
@@ -327,53 +329,59 @@ func checkTarget(p *load.Program, r *kit.Report) {
 		if next == nil {
 			break
 		}
-		// phi [cur, const c] guarded by cur < c (lower) or cur > c (upper)
-		var c int64
-		hasC := false
-		for _, e := range next.Edges {
-			if kc, ok := kit.ConstInt(e); ok && e != cur {
-				c, hasC = kc, true
-			}
-		}
-		if hasC {
-			for _, ref := range *cur.Referrers() {
-				b, ok := ref.(*ssa.BinOp)
-				if !ok {
-					continue
-				}
-				if kc, ok := kit.ConstInt(b.Y); ok && b.X == cur {
-					// which edge installs the constant? the const comes from the true branch
-					constOnTrue := false
-					for _, r2 := range *b.Referrers() {
-						if ifi, ok := r2.(*ssa.If); ok {
-							t := ifi.Block().Succs[0]
-							for pi, pred := range next.Block().Preds {
-								if _, isC := kit.ConstInt(next.Edges[pi]); isC && (pred == t || pred == ifi.Block() && t == next.Block()) {
-									constOnTrue = true
-								}
-							}
-						}
-					}
-					if !constOnTrue {
-						continue
-					}
-					switch b.Op {
-					case token.LSS, token.LEQ:
-						if kc == c {
-							lower = c
-						}
-					case token.GTR, token.GEQ:
-						if kc == c {
-							upper = c
-						}
-					}
-				}
-			}
-		}
 		cur = next
 	}
-	r.Check(lower == 72*600, "CONST-TABLE", "Target/clamp-lower", posOf(p, span), "lower clamp 72*600", fmt.Sprintf("lower clamp of the time span is %d, want %d", lower, 72*600))
-	r.Check(upper == 288*600, "CONST-TABLE", "Target/clamp-upper", posOf(p, span), "upper clamp 288*600", fmt.Sprintf("upper clamp of the time span is %d, want %d", upper, 288*600))
+	var divCall *ssa.Call
+	for _, c := range kit.CallsTo(f, bigInt+".Div") {
+		divCall, _ = c.(*ssa.Call)
+	}
+	clampBad := map[string]string{}
+	if divCall == nil {
+		clampBad["lower"], clampBad["upper"] = "no division found", "no division found"
+	} else {
+		consts := map[int64]bool{72 * 600: true, 288 * 600: true, 0: true}
+		kit.AllInstrs(f, func(in ssa.Instruction) {
+			var ops [10]*ssa.Value
+			for _, op := range in.Operands(ops[:0]) {
+				if op != nil && *op != nil {
+					if k, ok := kit.ConstInt(*op); ok && isIntLike((*op).Type()) {
+						consts[k] = true
+					}
+				}
+			}
+		})
+		for k := range consts {
+			for _, v := range []int64{k - 1, k, k + 1} {
+				want := v
+				if want < 72*600 {
+					want = 72 * 600
+				}
+				if want > 288*600 {
+					want = 288 * 600
+				}
+				outs, why := evalSlice(span, v, divCall, cur)
+				if why != "" {
+					clampBad["lower"], clampBad["upper"] = why, why
+					continue
+				}
+				for _, got := range outs {
+					if got == want {
+						continue
+					}
+					msg := fmt.Sprintf("a time span of %d is divided by as %d, want %d", v, got, want)
+					if v < 72*600 {
+						clampBad["lower"] = msg
+					} else if v > 288*600 {
+						clampBad["upper"] = msg
+					} else {
+						clampBad["lower"], clampBad["upper"] = msg, msg
+					}
+				}
+			}
+		}
+	}
+	r.Check(clampBad["lower"] == "", "CONST-TABLE", "Target/clamp-lower", posOf(p, span), "time spans below 72*600 are replaced by 72*600, others kept", clampBad["lower"])
+	r.Check(clampBad["upper"] == "", "CONST-TABLE", "Target/clamp-upper", posOf(p, span), "time spans above 288*600 are replaced by 288*600, others kept", clampBad["upper"])
 
 	// big.Int pipeline
 	var sub, mul, div *ssa.Call
@@ -440,13 +448,31 @@ func checkTarget(p *load.Program, r *kit.Report) {
 				return false, false
 			}
 			cc := isCallTo(b.X, bigInt+".Cmp")
-			if cc == nil || bigArg(cc.Call.Args[0]) != ssa.Value(tgt) || !isMaxWork(cc.Call.Args[1]) {
+			if cc == nil {
+				return false, false
+			}
+			op := b.Op
+			switch {
+			case bigArg(cc.Call.Args[0]) == ssa.Value(tgt) && isMaxWork(cc.Call.Args[1]):
+			case bigArg(cc.Call.Args[1]) == ssa.Value(tgt) && isMaxWork(cc.Call.Args[0]):
+				// MaxWork.Cmp(target): mirrored
+				switch op {
+				case token.LSS:
+					op = token.GTR
+				case token.LEQ:
+					op = token.GEQ
+				case token.GTR:
+					op = token.LSS
+				case token.GEQ:
+					op = token.LEQ
+				}
+			default:
 				return false, false
 			}
 			if z, ok := kit.ConstInt(b.Y); !ok || z != 0 {
 				return false, false
 			}
-			switch b.Op {
+			switch op {
 			case token.GTR, token.GEQ:
 				return true, true
 			case token.LEQ, token.LSS:
@@ -477,6 +503,153 @@ func checkTarget(p *load.Program, r *kit.Report) {
 		}
 	}
 	r.Check(badC == "", "CONST-TABLE", "Target/cap", posOf(p, f.Blocks[0].Instrs[0]), "target = ConvertToWork(projected), capped at bitcoin.MaxWork", badC)
+}
+
+// evalSlice evaluates the instructions between `from` (given the value v) and `until` for the
+// value of `result`, following the branches whose conditions only involve values derived from
+// `from` and constants; a branch on anything else is explored both ways. It returns the possible
+// values of result at until.
+func evalSlice(from ssa.Value, v int64, until ssa.Instruction, result ssa.Value) (outs []int64, why string) {
+	type st struct {
+		b    *ssa.BasicBlock
+		i    int
+		pred *ssa.BasicBlock
+		env  map[ssa.Value]int64
+	}
+	fi, ok := from.(ssa.Instruction)
+	if !ok {
+		return nil, "time span is not computed in the function"
+	}
+	start := 0
+	for i, in := range fi.Block().Instrs {
+		if in == fi {
+			start = i + 1
+		}
+	}
+	var eval func(env map[ssa.Value]int64, x ssa.Value) (int64, bool)
+	eval = func(env map[ssa.Value]int64, x ssa.Value) (int64, bool) {
+		if k, ok := kit.ConstInt(x); ok {
+			return k, true
+		}
+		if k, ok := env[x]; ok {
+			return k, true
+		}
+		switch y := x.(type) {
+		case *ssa.Convert:
+			if isIntLike(y.Type()) && isIntLike(y.X.Type()) {
+				return eval(env, y.X)
+			}
+		case *ssa.ChangeType:
+			return eval(env, y.X)
+		}
+		return 0, false
+	}
+	work := []st{{fi.Block(), start, nil, map[ssa.Value]int64{from: v}}}
+	steps := 0
+	seen := map[int64]bool{}
+	for len(work) > 0 {
+		s := work[len(work)-1]
+		work = work[:len(work)-1]
+		for {
+			steps++
+			if steps > 20000 {
+				return nil, "the clamp of the time span could not be evaluated (too long)"
+			}
+			if s.i >= len(s.b.Instrs) {
+				break
+			}
+			in := s.b.Instrs[s.i]
+			if in == until {
+				k, ok := eval(s.env, result)
+				if !ok {
+					return nil, "the divisor does not derive from the time span"
+				}
+				if !seen[k] {
+					seen[k] = true
+					outs = append(outs, k)
+				}
+				break
+			}
+			switch x := in.(type) {
+			case *ssa.Phi:
+				for pi, pred := range s.b.Preds {
+					if pred == s.pred {
+						if k, ok := eval(s.env, x.Edges[pi]); ok {
+							s.env[x] = k
+						} else {
+							delete(s.env, x)
+						}
+						break
+					}
+				}
+			case *ssa.BinOp:
+				a, ok1 := eval(s.env, x.X)
+				b, ok2 := eval(s.env, x.Y)
+				if ok1 && ok2 {
+					switch x.Op {
+					case token.ADD:
+						s.env[x] = a + b
+					case token.SUB:
+						s.env[x] = a - b
+					case token.MUL:
+						s.env[x] = a * b
+					case token.LSS:
+						s.env[x] = b2i(a < b)
+					case token.LEQ:
+						s.env[x] = b2i(a <= b)
+					case token.GTR:
+						s.env[x] = b2i(a > b)
+					case token.GEQ:
+						s.env[x] = b2i(a >= b)
+					case token.EQL:
+						s.env[x] = b2i(a == b)
+					case token.NEQ:
+						s.env[x] = b2i(a != b)
+					}
+				}
+			case *ssa.UnOp:
+				if x.Op == token.NOT {
+					if a, ok := s.env[x.X]; ok {
+						s.env[x] = 1 - a
+					}
+				}
+			case *ssa.Return, *ssa.Panic:
+				s.i = len(s.b.Instrs)
+				continue
+			case *ssa.Jump:
+				s = st{s.b.Succs[0], 0, s.b, s.env}
+				continue
+			case *ssa.If:
+				if cb, isC := kit.ConstBool(x.Cond); isC {
+					s = st{s.b.Succs[int(1-b2i(cb))], 0, s.b, s.env}
+					continue
+				}
+				if c, ok := s.env[x.Cond]; ok {
+					s = st{s.b.Succs[int(1-c)], 0, s.b, s.env}
+					continue
+				}
+				cp := map[ssa.Value]int64{}
+				for k, v := range s.env {
+					cp[k] = v
+				}
+				work = append(work, st{s.b.Succs[1], 0, s.b, cp})
+				s = st{s.b.Succs[0], 0, s.b, s.env}
+				continue
+			}
+			s.i++
+		}
+	}
+	if len(outs) == 0 {
+		return nil, "the division is not reached from the time span"
+	}
+	return outs, ""
+}
+
+func b2i(b bool) int64 {
+	if b {
+		return 1
+	}
+	return 0
 }
 
 func isConvOf(v, of ssa.Value) bool {
